@@ -348,6 +348,91 @@ def part_triples(ctx, shard):
     ctx.sample({"triples_of": shard[:2], "alphabet": SMALL_NAMES})
 
 
+CROSS_NAMES = ["code_length", "code_mass", "code_time", "code_velocity", "m", "km", "s", "g", "dimensionless", "percent"]
+
+
+def cross_units():
+    """the same symbols in registries that define them differently, and units that predate an edit of their own registry."""
+    ra, rb = custom_registry(), custom_registry()
+    rb.modify("code_length", 9.6)  # 3 x registry a
+    rb.modify("code_mass", 16.0)  # 1/4 x
+    rb.modify("code_time", 0.125)  # same
+    rb.modify("code_velocity", 12.8)
+    rc = custom_registry()
+    old = {n: Unit(n, registry=rc) for n in CROSS_NAMES}
+    rc.modify("code_length", 1.6)
+    rc.modify("code_mass", 256.0)
+    rc.modify("code_velocity", 51.2)
+    out = []
+    for n in CROSS_NAMES:
+        out.append((n + "@a", Unit(n, registry=ra)))
+        out.append((n + "@b", Unit(n, registry=rb)))
+        out.append((n + "@c-old", old[n]))
+        out.append((n + "@c-new", Unit(n, registry=rc)))
+    return out
+
+
+def part_cross(ctx, shard):
+    """* and / between units whose symbols coincide but whose definitions differ (other registry, or the same registry
+    before and after modify): the scale of the result is the product / quotient of the scales whatever the symbols do."""
+    world.reset_world()
+    allu = cross_units()
+    byname = dict(allu)
+    for n1 in shard:
+        u = byname[n1]
+        for n2, v in allu:
+            ctx.count("evaluations")
+            ctx.count("transitions", 5)
+            case = {"part": "cross", "u": n1, "v": n2}
+            cls = f"u={n1.split('@')[1]}|v={n2.split('@')[1]}"
+            (s1, d1, _), (s2, d2, _) = triple(u), triple(v)
+            uv, ud, uinv = attempt(lambda: u * v), attempt(lambda: u / v), attempt(lambda: u * v**-1)
+            ctx.decided(("cross", n1, n2))
+            for nm, r in (("mul", uv), ("div", ud), ("mul-inverse", uinv)):
+                if r[0] == "error":
+                    ctx.violation(f"C05|cross|{cls}|op={nm}|mode=escaped-exception:{r[1]}", case, None, None)
+            if uv[0] == "ok":
+                sp, dp, _ = triple(uv[1])
+                ctx.outcome(("cross-mul", str(uv[1].expr), round(math.log2(sp), 6)))
+                if dp != d1 * d2 or rel(sp, s1 * s2) > 4 * EPS:
+                    ctx.violation(f"C05|cross|{cls}|law=homomorphism-mul|mode=wrong-scale-or-dimension", case, (s1 * s2, d1 * d2), (sp, dp))
+                vu = attempt(lambda: v * u)
+                if vu[0] == "ok" and (triple(vu[1])[1] != dp or rel(triple(vu[1])[0], sp) > 4 * EPS):
+                    ctx.violation(f"C05|cross|{cls}|law=commutativity|mode=not-equal", case, (sp, dp), triple(vu[1]))
+                back = attempt(lambda: uv[1] / v)
+                if back[0] == "ok" and (triple(back[1])[1] != d1 or rel(triple(back[1])[0], s1) > 8 * EPS):
+                    ctx.violation(f"C05|cross|{cls}|law=inverse|mode=mul-then-div-not-identity", case, (s1, d1), triple(back[1]))
+            if ud[0] == "ok":
+                sp, dp, _ = triple(ud[1])
+                ctx.outcome(("cross-div", str(ud[1].expr), round(math.log2(sp), 6)))
+                if dp != d1 / d2 or rel(sp, s1 / s2) > 4 * EPS:
+                    ctx.violation(f"C05|cross|{cls}|law=homomorphism-div|mode=wrong-scale-or-dimension", case, (s1 / s2, d1 / d2), (sp, dp))
+                if uinv[0] == "ok" and (triple(uinv[1])[1] != dp or rel(triple(uinv[1])[0], sp) > 8 * EPS):
+                    ctx.violation(f"C05|cross|{cls}|law=div-is-mul-inverse|mode=not-equal", case, (sp, dp), triple(uinv[1]))
+                back = attempt(lambda: ud[1] * v)
+                if back[0] == "ok" and (triple(back[1])[1] != d1 or rel(triple(back[1])[0], s1) > 8 * EPS):
+                    ctx.violation(f"C05|cross|{cls}|law=inverse|mode=div-then-mul-not-identity", case, (s1, d1), triple(back[1]))
+                # the quotient as an operand: x * q, x / q for every x (the quotient may print as 1 and still have a scale)
+                q = ud[1]
+                for n3, x in allu[::4]:
+                    ctx.count("transitions", 2)
+                    s3, d3, _ = triple(x)
+                    for nm, f, ws, wd in (("x*q", lambda: x * q, s3 * sp, d3 * dp), ("x/q", lambda: x / q, s3 / sp, d3 / dp),
+                                          ("q*x", lambda: q * x, s3 * sp, d3 * dp), ("q/x", lambda: q / x, sp / s3, dp / d3)):
+                        r = attempt(f)
+                        if r[0] == "error":
+                            ctx.violation(f"C05|cross|{cls}|op={nm}|mode=escaped-exception:{r[1]}", dict(case, x=n3), None, None)
+                        elif r[0] == "ok" and (triple(r[1])[1] != wd or rel(triple(r[1])[0], ws) > 8 * EPS):
+                            ctx.violation(f"C05|cross|{cls}|op={nm}|law=homomorphism|mode=wrong-scale-or-dimension", dict(case, x=n3), (ws, wd), triple(r[1])[:2])
+            for p in (2, -1, Fraction(1, 2)):
+                r = attempt(lambda: (u / v) ** p) if ud[0] == "ok" else ("skip",)
+                if r[0] == "ok":
+                    wd, ws = (d1 / d2) ** p, (s1 / s2) ** float(p)
+                    if triple(r[1])[1] != wd or rel(triple(r[1])[0], ws) > 16 * EPS:
+                        ctx.violation(f"C05|cross|{cls}|law=homomorphism-pow|p={p}|mode=wrong-scale-or-dimension", case, (ws, wd), triple(r[1])[:2])
+    ctx.sample({"cross_of": shard[:3]})
+
+
 EQUAL_FAMILIES = [
     ["J", "N*m", "kg*m**2/s**2", "W*s", "Pa*m**3", "C*V", "1e7*erg"],
     ["W", "J/s", "V*A", "kg*m**2/s**3"],
@@ -390,6 +475,8 @@ def run(ctx):
     harness.pmap(ctx, part_pairs, [ALL_NAMES[i : i + 6] for i in range(0, len(ALL_NAMES), 6)])
     harness.pmap(ctx, part_powers, [ALL_NAMES[i : i + 6] for i in range(0, len(ALL_NAMES), 6)])
     harness.pmap(ctx, part_triples, [[n] for n in SMALL_NAMES])
+    cn = [n for n, _ in cross_units()]
+    harness.pmap(ctx, part_cross, [cn[i : i + 3] for i in range(0, len(cn), 3)])
     part_equality(ctx, EQUAL_FAMILIES)
     return {
         "coverage": {
@@ -398,7 +485,8 @@ def run(ctx):
             "association, power distribution, simplify and as_coeff_unit; states = distinct reached units "
             "(registry, expr, scale, dimension), each checked for agreement of its three representations",
             "axes": {"units": len(ALL_NAMES), "exponents": [str(e) for e in EXPS], "triple_alphabet": SMALL_NAMES,
-                     "equal_families": len(EQUAL_FAMILIES)},
+                     "equal_families": len(EQUAL_FAMILIES),
+                     "cross_registry_units": len(cn), "cross_rule": "10 symbols x {registry a, registry b with other scales, registry c before modify, c after}: all ordered pairs under *, /, *inverse, powers of the quotient, and each quotient as an operand of 10 further units"},
         },
         "assumptions": ["law instances in which either side refuses (offset, logarithmic units) are skipped; refusal must be symmetric"],
     }
@@ -413,6 +501,8 @@ def replay(case):
         part_powers(ctx, [case["u"]])
     elif part == "triple":
         part_triples(ctx, [case["u"]])
+    elif part == "cross":
+        part_cross(ctx, [case["u"]])
     else:
         part_equality(ctx, EQUAL_FAMILIES)
     return list(ctx.violations.items())
